@@ -89,6 +89,11 @@ def star_norm(cs):
     return out
 
 
+def blank_norm(cs):
+    import re as _re
+    return [_re.sub(r"[ \t]+", " ", c) for c in cs]
+
+
 def run(ctx):
     quick = ctx.tier == "quick"
     unc = ctx.unc()
@@ -122,6 +127,7 @@ def run(ctx):
             if e["e"] == "Out":
                 e = dict(e)
                 e["cinS"], e["coutS"] = star_norm(e["cin"]), star_norm(e["cout"])
+                e["cinT"], e["coutT"] = blank_norm(e["cin"]), blank_norm(e["cout"])
             events.append(e)
     ctx.cov["evaluations"] += len(res)
     ctx.cov["runs_accepted_by_uncrustify"] = sum(1 for evs, info, j in res if info["rc"] == 0)
@@ -136,9 +142,11 @@ def run(ctx):
             out = evs[-1]
             if b == "CommentsPreserved" and rep.get("why") == "StarLeaderSpace":
                 sig = "CommentsPreserved|star-leader-space"
+            elif b == "CommentsPreserved" and rep.get("why") == "TabToBlanksInComment":
+                sig = "CommentsPreserved|tab-after-blank-expanded"
             else:
                 parts = jid.split("|")
-                sig = "%s|%s" % (b, "|".join(parts[1:]) if parts[0] == "corpus" else jid)
+                sig = "%s|input|%s" % (b, parts[2]) if parts[0] in ("corpus", "random") else "%s|%s" % (b, jid)
             a, bb = (out["cin"], out["cout"]) if b == "CommentsPreserved" else (out["lin"], out["lout"])
             k, x, y = pe.first_diff(a, bb, 0)
             ctx.violation(sig, "%s violated for %s: %r -> %r (first pass touching text: %s)" % (b, jid, x, y, rep.get("pass")),
